@@ -602,6 +602,12 @@ func (m *Manager) readIntoTable(id uint64, reader io.Reader) error {
 	}
 	last := false
 
+	// A single proposal should not exceed half of the in-memory log size limit (when there is any).
+	batchLimit := uint64(len(msg))
+	if l := m.cfg.Table.MaxInMemLogSize / 2; l > 0 {
+		batchLimit = l
+	}
+
 	estimatedSize := 0
 	for {
 		n, err := reader.Read(msg)
@@ -624,8 +630,12 @@ func (m *Manager) readIntoTable(id uint64, reader io.Reader) error {
 			batchCmd.Table = cmd.Table
 			batchCmd.LeaderIndex = cmd.LeaderIndex
 
-			if uint64(estimatedSize) < m.cfg.Table.MaxInMemLogSize/2 {
+			// Every record belongs to the batch (the closing command carries just the leader index),
+			// keep on batching until the limit is reached.
+			if cmd.Kv != nil {
 				batchCmd.Batch = append(batchCmd.Batch, cmd.Kv)
+			}
+			if uint64(estimatedSize) < batchLimit {
 				continue
 			}
 		}
